@@ -25,6 +25,26 @@ CLAIMED = {
    "deterministic simulation through the rng seam: tagged parents recombined under seeded and boundary-word (adversarial) random streams; exhaustive small-scope enumeration of the exchange primitives; seeded reachability experiment for every segment",
    "Exact per-run oracles on tagged genes (length, position-wise origin, contiguity, documented errors, no panic) over seeded/adversarial streams; crossover_gene/crossover_segment enumerated for all length pairs <= 5 x all indices/ranges incl. inverted; every segment of every length <= 6 must occur in N seeded runs (absence has probability < 1e-440 and is treated as exact).",
    "Trusted: the tagged-gene observation; empty/inverted ranges outside the genomes may be Ok-no-op or Err (statement silent), never a panic or a changed genome."),
+ "C06": ("rngsim", "exploration", "DESIGN §5 C06",
+   "deterministic simulation through the rng seam: seeded selector trees (leaf selectors, Weighted, WeightedPair, DynWeighted, erased routes, failing probe member = component-fail fault) on tie-heavy / ragged / empty populations under seeded and boundary-word streams; exact oracle per run",
+   "Every run is decided exactly: Ok => pointer-identical member of the population; Err => an error the configuration can legitimately report (computed by a small reference); a panic or process abort => violation. Sampled over selector trees x populations x streams.",
+   "Trusted: the allowed-error reference in c06.rs. Which member a weighted combination consults depends on the stream, so an error is accepted iff some positive-weight member can report it."),
+ "C11": ("rngsim", "exploration", "DESIGN §5 C11",
+   "deterministic simulation through the rng seam: position-tagged genes, a logging probe gene generator with a disjoint alphabet, Plushy parents with Close markers, degenerate and boundary rates, seeded and boundary-word streams; exact oracle per run",
+   "Exact structural oracles per mutation (same length / genes stay in place; survivors form an ordered subsequence; at most one insert per parent position; new genes come from the generator's log of this call; degenerate-rate identities). Sampled over genomes x rates x streams.",
+   "Trusted: the tagging scheme; Close markers are untagged, so for parents containing them the per-position insert bound is replaced by subsequence + count checks."),
+ "C14": ("rngsim", "fault_enumeration", "DESIGN §5 C14",
+   "fault enumeration over operator pipelines: 37 composition shapes of logging probe operators, each run with 'probe call k fails' for every k, compared with a composition-AST model interpreter (log, output, rng consumption, error path)",
+   "Every shape x every fault position is enumerated; inputs and streams are seeded. The model predicts exactly which probes run, on what input, which word each draws, where the pipeline stops, the error path and the stream position afterwards.",
+   "Trusted: the AST interpreter in c14.rs; MapError is read through Display/source()."),
+ "C16": ("ambient", "exploration", "DESIGN §5 C16",
+   "determinism audit as simulation: a registry of every rng-consuming operation run from forked owned streams, re-run in fresh OS threads and fresh processes (ambient perturbation), in interleaved and concurrent call histories on one operator value, and Push programs with inputs declared in permuted orders",
+   "A correct tree can never diverge, so any divergence is a sound violation; coverage is the registry (34 operations) x seeds x perturbations (fresh thread, fresh process, interleaving, 2-4 concurrent callers, declaration-order permutations).",
+   "Trusted: Debug/Display text as the notion of 'equal result'; the Miri leg (R4) is not part of the registered command."),
+ "C17": ("rngsim", "exploration", "DESIGN §5 C17",
+   "deterministic simulation through the rng seam over an enumerated flavour set: concrete value vs all 28 generated pointer flavours + blanket dyn_* method for each of the five erasable traits, from forks of one owned stream; result, error chain, typed draw trace, next word and underlying call count compared",
+   "The flavour set (7 pointers x 4 auto-trait combinations x 5 traits) is enumerated completely per scenario; wrapped implementations, arguments and streams are seeded.",
+   "Trusted: Display + source() chain as 'the same error'; Debug text / pointer position as 'the same result'."),
 }
 
 NOT_APPLICABLE = {
@@ -38,7 +58,8 @@ PENDING_REASON = "check not built yet in this round (planned, see DESIGN §5); n
 ENGINES = [
  {"name": "simcore", "path": "sim/simcore", "serves_properties": sorted(CLAIMED), "kind_free_text": "seeded runner (one integer decides everything), SimRng owned random stream with boundary-word fault mode, minimiser, replay files, evidence writer, KL decision rule"},
  {"name": "vmsim", "path": "sim/checks/src/vmsim.rs", "serves_properties": ["C01", "C02", "C03"], "kind_free_text": "Push VM simulator: harness-stepped and real-loop execution of the real interpreter, resource-fault schedules, pushmodel reference interpreter (sim/checks/src/pushmodel.rs)"},
- {"name": "rngsim", "path": "sim/checks/src/bin", "serves_properties": ["C10"], "kind_free_text": "single calls / short histories of selectors, mutators, recombinators and generators driven by the owned SimRng stream with probe components; exact per-run oracles plus seeded statistical experiments"},
+ {"name": "rngsim", "path": "sim/checks/src/bin", "serves_properties": ["C06", "C10", "C11", "C14", "C17"], "kind_free_text": "single calls / short histories of selectors, mutators, recombinators and generators driven by the owned SimRng stream with probe components; exact per-run oracles plus seeded statistical experiments"},
+ {"name": "ambient", "path": "sim/checks/src/bin/c16.rs", "serves_properties": ["C16"], "kind_free_text": "determinism sweep: forked streams, fresh threads, fresh processes, interleaved/concurrent histories, input-order permutations"},
  {"name": "stacksim", "path": "sim/checks/src/bin/c04.rs", "serves_properties": ["C04"], "kind_free_text": "operation-history simulator for Stack<T> against a Vec+capacity model"},
 ]
 
